@@ -25,7 +25,7 @@ def step (s : St) (ws : List String) : St × String :=
   match ws with
   | ["reset", h, u, i] =>
     match reset h u i with
-    | some s' => if s'.h = .morpheus then (s', s!"ok sum={sumOf s'.univ s'.cur}") else ({ s with live := false }, "bad-op")
+    | some s' => if s'.h = .morpheus then (s', s!"ok sum={sumOf s'.univ s'.blk.visible}") else ({ s with live := false }, "bad-op")
     | none => ({ s with live := false }, "bad-op")
   | ["xfer", prices, units, sponsor, actor, now, ts, maxFee, transfers] =>
     match parseDims prices, parseDims units, parseHex sponsor, parseHex actor, parseInt now,
@@ -37,8 +37,8 @@ def step (s : St) (ws : List String) : St × String :=
       -- Transaction.StateKeys: union of Transfer.StateKeys (actor RW, To All) and the sponsor key (RW)
       let sc := scopeOf (trs.flatMap fun t => [(bkey actor, permWrite), (bkey t.to, permAll)])
                   [(bkey sponsor, permWrite)]
-      let (cur', o) := processTx rules .morpheus prices now sc tx s.cur
-      ({ s with cur := cur' }, outcomeString s.univ cur' o ++ s!" sum={sumOf s.univ cur'}")
+      let (b', o) := processTxB rules .morpheus prices now sc tx s.blk
+      ({ s with blk := b' }, outcomeString s.univ b'.visible o ++ s!" sum={sumOf s.univ b'.visible} diff=" ++ diffString s.univ b')
     | _, _, _, _, _, _, _, _ => (s, "bad-op")
   | _ => (s, "bad-op")
 
